@@ -60,7 +60,7 @@ def trace_module(d, modname):
 
     sys.path.insert(0, d)
     importlib.invalidate_caches()
-    for n in ("shapes", "fastshapes", "geo", "geo.util", "colors", modname, modname.split(".")[0], modname.split(".")[0] + ".shapes", modname.split(".")[0] + ".points"):
+    for n in ("shapes", "fastshapes", "geo", "geo.util", "colors", "generic_defs", modname, modname.split(".")[0], modname.split(".")[0] + ".shapes", modname.split(".")[0] + ".points"):
         sys.modules.pop(n, None)
     try:
         mod = importlib.import_module(modname)
@@ -400,7 +400,7 @@ def work(p):
         # CLI apply (file rewritten in place) for the plain configuration
         if spec.get("cli"):
             judge_cli(res, d, modname, src, tmod, traces, spec, prop, base_out)
-        for n in ("shapes", "fastshapes", "geo", "geo.util", "colors", "typing_defs", modname):
+        for n in ("shapes", "fastshapes", "geo", "geo.util", "colors", "typing_defs", "generic_defs", modname):
             sys.modules.pop(n, None)
         shutil.rmtree(d, ignore_errors=True)
     shutil.rmtree(d0, ignore_errors=True)
